@@ -58,6 +58,15 @@ Result(int value) {
  *
  */
 CPPExpression::Result::
+Result(long long value) {
+  _type = RT_integer;
+  _u._integer = value;
+}
+
+/**
+ *
+ */
+CPPExpression::Result::
 Result(double value) {
   _type = RT_real;
   _u._real = value;
@@ -76,24 +85,33 @@ Result(void *value) {
 /**
  *
  */
-int CPPExpression::Result::
+long long CPPExpression::Result::
 as_integer() const {
   switch (_type) {
   case RT_integer:
     return _u._integer;
 
   case RT_real:
-    return (int)_u._real;
+    return (long long)_u._real;
 
   case RT_pointer:
-    // We don't mind if this loses precision.
-    return (int)(intptr_t)(_u._pointer);
+    return (long long)(intptr_t)(_u._pointer);
 
   default:
     cerr << "Invalid type\n";
     assert(false);
     return 0;
   }
+}
+
+/**
+ * Returns true if this is an integer result with a value that an int can
+ * hold, which is what the interrogate database records.
+ */
+bool CPPExpression::Result::
+fits_int() const {
+  return _type == RT_integer &&
+    _u._integer >= INT_MIN && _u._integer <= INT_MAX;
 }
 
 /**
@@ -588,7 +606,7 @@ evaluate() const {
     return Result((int)_u._boolean);
 
   case T_integer:
-    return Result((int)_u._integer);
+    return Result((long long)_u._integer);
 
   case T_real:
     return Result((double)_u._real);
@@ -635,17 +653,21 @@ evaluate() const {
           return Result(r1.as_boolean());
 
         } else if (stype->_type == CPPSimpleType::T_int) {
-          int value = r1.as_integer();
+          long long value = r1.as_integer();
           if (stype->_flags & CPPSimpleType::F_short) {
             // The value is converted to the 16-bit target type.
             if (stype->_flags & CPPSimpleType::F_unsigned) {
-              value = (int)(unsigned short)value;
+              value = (unsigned short)value;
             } else {
-              value = (int)(short)value;
+              value = (short)value;
             }
-          } else if ((stype->_flags & CPPSimpleType::F_unsigned) && value < 0) {
-            // The converted value does not fit in the int we evaluate in.
-            return Result();
+          } else if ((stype->_flags & (CPPSimpleType::F_long | CPPSimpleType::F_longlong)) == 0) {
+            // The value is converted to the 32-bit target type.
+            if (stype->_flags & CPPSimpleType::F_unsigned) {
+              value = (unsigned int)value;
+            } else {
+              value = (int)value;
+            }
           }
           return Result(value);
 
@@ -794,7 +816,7 @@ evaluate() const {
       if (r1._type == RT_real || r2._type == RT_real) {
         return Result(r1.as_real() / r2.as_real());
       } else if (r2.as_integer() == 0 ||
-                 (r1.as_integer() == INT_MIN && r2.as_integer() == -1)) {
+                 (r1.as_integer() == LLONG_MIN && r2.as_integer() == -1)) {
         // The quotient does not exist (or does not fit).
         return Result();
       } else {
@@ -803,7 +825,7 @@ evaluate() const {
 
     case '%':
       if (r2.as_integer() == 0 ||
-          (r1.as_integer() == INT_MIN && r2.as_integer() == -1)) {
+          (r1.as_integer() == LLONG_MIN && r2.as_integer() == -1)) {
         return Result();
       }
       return Result(r1.as_integer() % r2.as_integer());
@@ -899,9 +921,15 @@ evaluate() const {
       }
 
     case LSHIFT:
-      return Result(r1.as_integer() << r2.as_integer());
+      if (r2.as_integer() < 0 || r2.as_integer() >= 64) {
+        return Result();
+      }
+      return Result((long long)((unsigned long long)r1.as_integer() << r2.as_integer()));
 
     case RSHIFT:
+      if (r2.as_integer() < 0 || r2.as_integer() >= 64) {
+        return Result();
+      }
       return Result(r1.as_integer() >> r2.as_integer());
 
     case '?':
